@@ -700,3 +700,237 @@ func c01SetString(m map[string]bool) string {
 	sort.Strings(s)
 	return "{" + strings.Join(s, ", ") + "}"
 }
+
+// ---------- role helpers that do not care about closure / method / function form ----------
+
+// c01FuncOfValue: the function a func-typed value denotes — a closure literal,
+// a declared function, or a bound method value (then recv is the receiver).
+func c01FuncOfValue(v ssa.Value) (fn *ssa.Function, recv ssa.Value) {
+	for _, r := range Roots(v) {
+		switch u := r.(type) {
+		case *ssa.Function:
+			fn = u
+		case *ssa.MakeClosure:
+			f := u.Fn.(*ssa.Function)
+			if strings.HasPrefix(f.Synthetic, "bound method wrapper") && len(u.Bindings) == 1 {
+				for _, call := range Calls(f, func(string) bool { return true }) {
+					if g := StaticCallee(call); g != nil && g.Signature.Recv() != nil {
+						fn, recv = g, u.Bindings[0]
+					}
+				}
+				continue
+			}
+			fn = f
+		}
+	}
+	return
+}
+
+// c01GraphCopyFns: the functions that start the copy traversal — the parent of
+// a traversal closure, or any function handing the traversal (closure, method
+// value, function) to syncutil.Go.
+func c01GraphCopyFns(p *Prog) map[*ssa.Function]bool {
+	out := map[*ssa.Function]bool{}
+	ts := map[*ssa.Function]bool{}
+	for _, t := range traversalClosures(p) {
+		ts[t] = true
+		if t.Parent() != nil {
+			out[t.Parent()] = true
+		}
+	}
+	for _, f := range p.FuncsOfPkg("") {
+		if ts[f] {
+			continue
+		}
+		for _, g := range CallsTo(f, nGo) {
+			if len(g.Common().Args) < 3 {
+				continue
+			}
+			if fn, _ := c01FuncOfValue(g.Common().Args[2]); fn != nil && ts[fn] {
+				out[f] = true
+			}
+		}
+	}
+	return out
+}
+
+// c01CarriedSources resolves a value read inside a closure / method from state
+// that merely carries values set up by the enclosing code: a captured variable
+// (free variable cell) or a field of the receiver / of a captured state struct.
+// It returns the values stored into that carrier (by the functions of package
+// ~), or ok=false when v is not such a read.
+func c01CarriedSources(p *Prog, v ssa.Value) (srcs []ssa.Value, ok bool) {
+	ld, isLoad := strip(v).(*ssa.UnOp)
+	if !isLoad || ld.Op != token.MUL {
+		return nil, false
+	}
+	switch x := ld.X.(type) {
+	case *ssa.FreeVar:
+		bs := freeVarBindings(x)
+		if len(bs) == 0 {
+			return nil, false
+		}
+		for _, b := range bs {
+			a, isAlloc := b.(*ssa.Alloc)
+			if !isAlloc {
+				// a closure nested in a closure: follow the outer free variable
+				if fv2, isFV := b.(*ssa.FreeVar); isFV {
+					for _, b2 := range freeVarBindings(fv2) {
+						if a2, ok2 := b2.(*ssa.Alloc); ok2 {
+							for _, s := range storesTo(a2) {
+								srcs = append(srcs, s.Val)
+							}
+							continue
+						}
+						return nil, false
+					}
+					continue
+				}
+				return nil, false
+			}
+			if len(closureWriters(a)) > 0 {
+				return nil, false
+			}
+			for _, s := range storesTo(a) {
+				srcs = append(srcs, s.Val)
+			}
+		}
+		return srcs, len(srcs) > 0
+	case *ssa.FieldAddr:
+		path, isPath := c01AddrPath(x)
+		if !isPath {
+			return nil, false
+		}
+		// base must be the receiver / a parameter / a captured pointer — not a local being built
+		base := path.Base
+		if bl, isBL := base.(*ssa.UnOp); isBL && bl.Op == token.MUL {
+			if _, isFV := bl.X.(*ssa.FreeVar); !isFV {
+				return nil, false
+			}
+		} else if _, isParam := base.(*ssa.Parameter); !isParam {
+			if _, isFV := base.(*ssa.FreeVar); !isFV {
+				return nil, false
+			}
+		}
+		fv := path.last()
+		for _, f := range p.FuncsOfPkg(short(fnPkgPath(v.(ssa.Instruction).Parent()))) {
+			AllInstrs(f, func(in ssa.Instruction) {
+				if s, isStore := in.(*ssa.Store); isStore {
+					if sp, ok := c01AddrPath(s.Addr); ok && sp.last() == fv && len(sp.Vars) == len(path.Vars) {
+						srcs = append(srcs, s.Val)
+					}
+				}
+			})
+		}
+		return srcs, len(srcs) > 0
+	}
+	return nil, false
+}
+
+// c01CarriedFrom: v (inside a closure / method) denotes parameter prm of the
+// function that set up the carrier.
+func c01CarriedFrom(p *Prog, v ssa.Value, prm *ssa.Parameter) bool {
+	if prm == nil {
+		return false
+	}
+	for _, r := range Roots(v) {
+		srcs, ok := c01CarriedSources(p, r)
+		if !ok {
+			return false
+		}
+		for _, s := range srcs {
+			if q := c01ParamOf(s); q != prm {
+				return false
+			}
+		}
+	}
+	return true
+}
+
+// ---------- callback invocation sites (direct or through a nil-safe helper) ----------
+
+// c01HookHelper: module function h invokes its func-typed parameter #pi unless
+// it is nil, on every path, and returns that call's error unchanged (nil when
+// the hook is nil).
+func c01HookHelper(h *ssa.Function, pi int) bool {
+	if h == nil || len(h.Blocks) == 0 || pi >= len(h.Params) {
+		return false
+	}
+	prm := h.Params[pi]
+	var calls []ssa.CallInstruction
+	for _, call := range Calls(h, func(string) bool { return true }) {
+		if !call.Common().IsInvoke() && call.Common().Value == ssa.Value(prm) {
+			calls = append(calls, call)
+		}
+	}
+	if len(calls) == 0 {
+		return false
+	}
+	nilE, _, _ := NilTests(h, Aliases(prm))
+	cutInv := newCut().Calls(calls).Edges(nilE...)
+	for _, r := range Returns(h) {
+		if !MustPass(r, cutInv) {
+			return false
+		}
+	}
+	errIdx := ErrResultIndex(h.Signature)
+	if errIdx < 0 {
+		return true
+	}
+	al := map[ssa.Value]bool{}
+	for _, call := range calls {
+		if e := ErrOf(call); e != nil {
+			for a := range Aliases(e) {
+				al[a] = true
+			}
+		}
+	}
+	for _, a := range RetAtoms(h, errIdx) {
+		if al[a.Val] || al[strip(a.Val)] {
+			continue
+		}
+		if k, isK := a.Val.(*ssa.Const); isK && k.Value == nil {
+			continue
+		}
+		if _, isZero := a.Val.(zeroMarker); isZero {
+			continue
+		}
+		return false
+	}
+	return true
+}
+
+// c01CallbackSites: the places in fn where option callback fv is invoked — a
+// call through the field value itself, or a call of a nil-safe hook helper
+// (c01HookHelper) that receives the field value.  nilSafe[i] tells whether the
+// site already handles a nil callback.
+func c01CallbackSites(fn *ssa.Function, fv *types.Var) (sites []ssa.CallInstruction, nilSafe []bool) {
+	isField := func(v ssa.Value) bool {
+		for _, r := range Roots(v) {
+			if !c01IsFieldValue(r, fv) {
+				return false
+			}
+		}
+		return true
+	}
+	for _, call := range Calls(fn, func(string) bool { return true }) {
+		if _, isDefer := call.(*ssa.Defer); isDefer {
+			continue
+		}
+		cc := call.Common()
+		if !cc.IsInvoke() && isField(cc.Value) {
+			if _, isFn := cc.Value.(*ssa.Function); !isFn {
+				sites, nilSafe = append(sites, call), append(nilSafe, false)
+				continue
+			}
+		}
+		if h := StaticCallee(call); h != nil && inModule(h) {
+			for i, a := range cc.Args {
+				if _, isSig := a.Type().Underlying().(*types.Signature); isSig && isField(a) && c01HookHelper(h, i) {
+					sites, nilSafe = append(sites, call), append(nilSafe, true)
+				}
+			}
+		}
+	}
+	return
+}
